@@ -52,8 +52,10 @@ Inductive pc :=
 | PCaStart | PCaSet (b : nat) | PCaWait (b : nat)
 (* Dispose *)
 | PDiStart | PDiStop (ob : option nat) | PDiStopWait (ob : option nat) | PDiWait (b : nat)
-(* Watch *)
-| PWaStart
+(* Watch: the whole function is one critical section (PWaStart); the call
+   returns later (PWaRet), so that other calls may be observed to return in
+   between *)
+| PWaStart | PWaRet (v : retv)
 | PWfStart | PWfWait (b : nat)
 | PWlCheck | PWlSleep
 | PRet (v : retv).
@@ -203,14 +205,15 @@ Definition exec_step (s : state) (t : nat) : option (state * label) :=
   | PDiWait b => if b_done (blds s b) then Some (ret s t RvUnit) else None
   | PWaStart =>
       if disposed s then Some (ret s t RvErr)
-      else if watcher s then Some (ret s t RvErr)
+      else if watcher s then Some (set_pc s t (PWaRet RvErr), LTau)
       else
         let w := nt s in
         let s1 := mkState (disposed s) (active s) (recent s) true w (stopFlag s) (wexited s)
                           (edits s) (nb s) (blds s) (S (S w))
                           (upd (upd (thr s) w (mkThread KWatcher 0 PWlCheck)) (S w) (mkThread KWatchFirst 0 PWfStart))
                           (ncalls s) in
-        Some (ret s1 t RvUnit)
+        Some (set_pc s1 t (PWaRet RvUnit), LTau)
+  | PWaRet v => Some (ret s t v)
   | PWfStart =>
       match active s with
       | Some b => Some (set_pc s t (PWfWait b), LTau)
